@@ -559,6 +559,14 @@ impl AutosarModel {
             locked_model.files.swap_remove(pos);
             if locked_model.files.is_empty() {
                 // no other files remain in the model, so it reverts to being empty
+                let root_element = locked_model.root_element.clone();
+                drop(locked_model);
+                // remove the content element by element, so that handles to the removed elements become invalid
+                let sub_elements: Vec<Element> = root_element.sub_elements().collect();
+                for sub_element in sub_elements {
+                    let _ = root_element.remove_sub_element(sub_element);
+                }
+                let mut locked_model = self.0.write();
                 locked_model.root_element.0.write().content.clear();
                 locked_model.root_element.set_file_membership(HashSet::new());
                 locked_model.identifiables.clear();
